@@ -23,9 +23,9 @@ CLAIMED = {
    note=T + "Guard of the replace-around theorems: not (empty gap at the end of the range with slice content after it) — the excluded shape is a recorded finding (C03-touching-empty-gap), no library operation emits it.",
    design="§5 C03"),
  "C04": dict(
-   technique="Lean 4 theorems: history bookkeeping invariant for any sequence of attempted steps; inverse maps; EXACT UNDO INCLUDING SUCCESS of every step kind (replace_undo with guard sidesCompatible, replace-around with gapFitsBack / structure, attribute, doc-attribute, node-mark, range mark steps with exact iff-guards); invert succeeds whenever apply did (invert_ok_of_apply); composition to whole histories; and for histories BUILT THROUGH THE TRANSFORM API: the steps emitted by split / join / lift / wrap / set_node_markup / set_block_type / mark operations / deletions satisfy the per-step guard (…Guard_family, delete_residual), giving opHistory_undo and structHistory_undo_bmp (no per-step hypothesis left for structural histories on BMP documents); guards tied exactly to the real code; histories replayed and undone",
+   technique="Lean 4 theorems: history bookkeeping invariant for any sequence of attempted steps; inverse maps; EXACT UNDO INCLUDING SUCCESS of every step kind (replace_undo with guard sidesCompatible, replace-around with gapFitsBack / structure, attribute, doc-attribute, node-mark, range mark steps with exact iff-guards); invert succeeds whenever apply did (invert_ok_of_apply); composition to whole histories; and for histories BUILT THROUGH THE TRANSFORM API: the steps emitted by split / join / lift / wrap / set_node_markup / set_block_type / mark operations / deletions satisfy the per-step guard (…Guard_family, delete_residual), giving opHistory_undo, structHistory_undo_bmp and editHistory_undo (editing histories — structural edits, node-level edits, mark operations, deletions, typing, pasted slices — undone exactly under hypotheses about the operations' arguments only, plus two decidable run-level ones); guards tied exactly to the real code; histories replayed and undone",
    text="{n} kernel-checked theorems (Props/C04.lean; ~12 k lines in Proofs/Undo*, Reinsert, MarkupSuccess, MarkUndo, MarkPlanUndo*, MarkHistory, HistoryUndo, InvertOk*, OpGuard*, OpHistory): the inverse of an applied step applies and restores the document, for all documents and slices, under explicit decidable guards each shown necessary by a counterexample theorem reproduced on the real code (recorded findings: non-transitive join, text gap, structure flag incl. wrap with a leaf wrapper, node marks, same-type mark order); composed to histories of operations.",
-   note=T + "The guards are Bool predicates of the model (PM/UndoGuard, MarkUndoGuard, OpGuard) compared exactly with the same quantities computed from the real code on every generated case; guard true and real undo failing would be reported. Left as hypotheses of opHistory_undo: payload validity of steps the Fitter emits for non-empty slices, set_block_type as a whole operation, pair-alignment (model-only). For the bundled schema family the schema-level guards are themselves theorems: the schemas are regenerated as Lean data from the running library on every run and the guards evaluated by the kernel (lean/Gen, lean/Family: closed corollaries without schema hypotheses).",
+   note=T + "The guards are Bool predicates of the model (PM/UndoGuard, MarkUndoGuard, OpGuard) compared exactly with the same quantities computed from the real code on every generated case; guard true and real undo failing would be reported. Left as hypotheses of editHistory_undo: the decidable run hypothesis unplacedWfRun for slices the Fitter has to open and normal form of the emitted slice for non-deletions (both evaluated by the tie), BMP documents (pair-alignment is model-only), flatInline and the same-type guard for mark operations (open finding), set_block_type to non-plain types. For the bundled schema family the schema-level guards are themselves theorems: the schemas are regenerated as Lean data from the running library on every run and the guards evaluated by the kernel (lean/Gen, lean/Family: closed corollaries without schema hypotheses).",
    design="§5 C04"),
  "C05": dict(
    technique="Lean 4 round-trip theorems fromJson(toJson x) = x for marks, nodes (any depth), fragments, slices and the eight step kinds, attribute defaulting, registry; exact correspondence of to_json/from_json through real json.dumps/loads; aliasing probe; registry probed from a fresh interpreter; malformed-JSON stream",
